@@ -1,7 +1,8 @@
 (* Props/C08.v — C08: Glencoe round trip returns the same model, at any number of cycles.
    JSON text layer as in C05 (json.dumps / json.load hypothesis, validated by W-glencoe / R-glencoe). *)
 From Coq Require Import List Bool String ZArith Permutation.
-From FM Require Import Base.Result Model.Ast Model.FM Model.PFM Model.Sem Format.Glencoe Proofs.GlencoeFacts.
+From FM Require Import Base.Result Model.Ast Model.FM Model.PFM Model.Sem Format.Glencoe Model.PyRt Model.Loc
+     Gen.Src_glencoe Proofs.GlencoeFacts Proofs.SrcGlencoeFacts.
 Import ListNotations.
 Local Open Scope list_scope.
 
@@ -9,6 +10,28 @@ Theorem C08_roundtrip : forall m, glencoe_ok m = true ->
   exists d pm, glencoe_write m = Ok d /\ glencoe_read d = Ok pm /\ erase_fm pm = glencoe_norm m.
 Proof. exact glencoe_roundtrip. Qed.
 Print Assumptions C08_roundtrip.
+
+(* ---- the writer half about the TRANSLATED SOURCE of glencoe_writer.py (Gen/Src_glencoe.v, regenerated on every
+   run; DESIGN §10): with distinct feature names the translated _to_json IS glencoe_write, errors included.
+   The hypothesis is needed (C08_source_writer_needs_distinct_names): Python's sort is stable, the hand model's
+   sort_by is not, and they differ on two siblings of one name — outside every model C08 quantifies over. ---- *)
+Theorem C08_source_writer : forall m fuel, (fuel_model m <= fuel)%nat -> NoDup (names (root m)) ->
+  py__to_json fuel m = glencoe_write m.
+Proof. exact src_glencoe_to_json. Qed.
+Print Assumptions C08_source_writer.
+
+Theorem C08_source_writer_needs_distinct_names : exists m, py__to_json (fuel_model m) m <> glencoe_write m.
+Proof. exact src_glencoe_needs_distinct_names. Qed.
+Print Assumptions C08_source_writer_needs_distinct_names.
+
+Theorem C08_source_roundtrip : forall m fuel, (fuel_model m <= fuel)%nat -> NoDup (names (root m)) ->
+  glencoe_ok m = true ->
+  exists d pm, py__to_json fuel m = Ok d /\ glencoe_read d = Ok pm /\ erase_fm pm = glencoe_norm m.
+Proof.
+  intros m fuel Hf Hn Hok. destruct (glencoe_roundtrip m Hok) as (d & pm & Hw & Hr & He).
+  exists d, pm. rewrite (src_glencoe_to_json m fuel Hf Hn). exact (conj Hw (conj Hr He)).
+Qed.
+Print Assumptions C08_source_roundtrip.
 
 (* the normal form only re-orders: children sorted by name, mandatory-beside-group relations first;
    same names, and constraints (same names, same number) evaluate alike under every assignment *)
